@@ -948,6 +948,7 @@ func (c12Prop) Execute(p *Plan, run *Run) any {
 	for g := 0; g < ng; g++ {
 		for i, op := range pl.Ops[g] {
 			want := env.execOp(g, op, true)
+			tick()
 			got := "<missing>"
 			if i < len(results[g].res) {
 				got = results[g].res[i]
@@ -1013,8 +1014,22 @@ func c12Burst(p *Plan, run *Run) any {
 			}
 		}(g)
 	}
+	// progress journal from a goroutine of its own: the workers must not share
+	// any synchronisation with the harness (it would order their accesses)
+	stopTick := make(chan struct{})
+	go func() {
+		for {
+			select {
+			case <-stopTick:
+				return
+			case <-time.After(200 * time.Millisecond):
+				os.Stderr.WriteString("@@T\n")
+			}
+		}
+	}()
 	close(start)
 	wg.Wait()
+	close(stopTick)
 	runtime.GOMAXPROCS(prev)
 	run.Evals++
 	run.Probes.Inc("parallel-burst-plans")
